@@ -8,5 +8,7 @@ CONSTANTS
   Lifecycle = "inline"
   SecondCheck = TRUE
   Filter = TRUE
-INVARIANTS TypeOK AtMostOnce NoStaleInvoke OnlyAllocated QueueBound HandlersConsistent FilterConsistent NoLoss ExitedIdle InvokedOnlyRegistered
+  MaxFail = 0
+  GiveBack = FALSE
+INVARIANTS TypeOK AtMostOnce NoStaleInvoke OnlyAllocated SeqnoUnique QueueBound HandlersConsistent FilterConsistent NoLoss ExitedIdle InvokedOnlyRegistered
 PROPERTIES SeqnoStep
